@@ -312,6 +312,8 @@ func genPath(t *rapid.T) pathCase {
 	return pathCase{Path: p}
 }
 
+var otherPaths = []bip32path.Path{{1<<32 - 1, 1<<31 - 1, 1 << 31, 2147483647, 4294967295, 9, 8}, {}, {44 | 1<<31, 4218 | 1<<31, 1 << 31, 0, 7}}
+
 func checkPath(c pathCase) (h.Info, error) {
 	p := bip32path.Path(c.Path)
 	hard, norm := false, false
@@ -346,6 +348,24 @@ func checkPath(c pathCase) (h.Info, error) {
 	var q bip32path.Path
 	if err := q.UnmarshalText(mt); err != nil || !equal(q, c.Path) {
 		return info, fmt.Errorf("UnmarshalText(%q) = %v,%v", mt, []uint32(q), err)
+	}
+	// the marshalled bytes belong to the caller: still the same text after other paths were printed
+	// and marshalled (a caller that collects several marshalled paths before using them)
+	kept := string(mt)
+	for _, o := range otherPaths {
+		_ = o.String()
+		if _, err := o.MarshalText(); err != nil {
+			return info, fmt.Errorf("MarshalText(%v): %v", []uint32(o), err)
+		}
+	}
+	if string(mt) != kept {
+		return info, fmt.Errorf("the bytes returned by MarshalText for %v read %q right after the call and %q after %d other paths were printed/marshalled", c.Path, kept, mt, len(otherPaths))
+	}
+	for i := range mt { // and writing into them does not disturb later calls
+		mt[i] = 'X'
+	}
+	if again, err := p.MarshalText(); err != nil || string(again) != kept {
+		return info, fmt.Errorf("MarshalText(%v) = %q, %v after the bytes of the previous result were overwritten by the caller; before: %q", c.Path, again, err, kept)
 	}
 	// the H spelling and the prefix-less spelling denote the same path
 	alt := strings.ReplaceAll(s, "'", "H")
